@@ -798,6 +798,23 @@ def support_cert_expr(spec, s, d, tau):
             f"{narrow._q(tau)} {narrow._q(tau)}")
 
 
+def support_cert_item(var, spec, s, d, tau_lit):
+    """one `support_cert` term for the shape bound to the Coq variable `var`; directions whose largest
+    component is far from 1 are rescaled by an exact power of two (support_cert_scaled re-checks
+    dc = c*d and proves the statement for d itself)"""
+    from .. import narrow
+    w = narrow.wit_expr(spec, s)
+    m = max(abs(x) for x in d)
+    if m != 0.0 and not (2.0 ** -30 <= m <= 2.0 ** 30):
+        e = math.frexp(m)[1]
+        c = Fr(2) ** (-e)
+        dc = [float(Fr(x) * c) for x in d]
+        if all(Fr(y) == Fr(x) * c for x, y in zip(d, dc)):
+            return (f"support_cert_scaled {var} {w} {narrow.vq(s)} {narrow.vq(d)} {narrow.vq(dc)} "
+                    f"{narrow._q(c)} {tau_lit}")
+    return f"support_cert {var} {w} {narrow.vq(s)} {narrow.vq(d)} {tau_lit} {tau_lit}"
+
+
 def member_tol_expr(spec, p, tau):
     from .. import narrow
     return f"in_shape_tol {narrow.sh_expr(spec)} {narrow.wit_expr(spec, p)} {narrow.vq(p)} {narrow._q(tau)}"
